@@ -18,6 +18,9 @@ package finisher
 //@   property C01
 //@   attr hooked inputCh,sourceProducedCh,sourceFinishedCh,MarkAsFinished,ReceiveFeedback
 //@   attr cancellable @C03 inputCh,ResumeCh
+//@   local stopSeen int = 0
+//@   after selrecv(done(ctx)): stopSeen = 1
+//@   loop for invariant [returns-on-stop] @C03 stopSeen == 0 // C03: a stop request returns within bounded time (once the goroutine has seen its context cancelled it returns: it never comes back to the head of its loop)
 //@   replay c03_stopPaused_finisher:cancellable:ResumeCh
 //@   attr assume-pre MarkAsFinished,MarkAsFinished:owns,ReceiveFeedback,ReceiveFeedback:owns
 //@   requires f != nil
